@@ -23,8 +23,21 @@ static void noop_close(void *s)
 }
 static int failing_open(void *s)
 {
+	int old;
+
 	(void)s;
-	return TR_ERROR; /* the dummy cache is unreachable */
+	/* The configuration checks are single-threaded on purpose: rtr_mgr_add_group / rtr_mgr_remove_group start
+	 * the best group when it is closed, and a fail-over callback running concurrently with the next
+	 * remove_group call is a race inside the library that no property speaks about.  So a started socket
+	 * never gets past its connect: it waits here, cancellable, until rtr_mgr_stop() ends it. */
+	pthread_setcancelstate(PTHREAD_CANCEL_ENABLE, &old);
+	for (;;) {
+		struct timespec ts = {0, 2000000};
+
+		pthread_testcancel();
+		nanosleep(&ts, NULL);
+	}
+	return TR_ERROR;
 }
 
 struct gctx {
